@@ -464,7 +464,14 @@ func checkCase(c *lib.Ctx, cs *Case, distinct bool) int {
 	n := 0
 	work := cs.clone()
 	base := baseline()
-	for round := 0; round < 4; round++ {
+	for round := 0; round < 4 && f != nil; round++ {
+		if km, g, t := tryFast(c, work, f); km != nil {
+			c.Violation(km.sig, "", nil) // counted only: three full witnesses of this signature exist already
+			c.Observe("A.attributed_without_minimising", 1)
+			n++
+			work, f = t, g
+			continue
+		}
 		min, mf, cause, evals := minimise(work, func(t *Case) *finding { g, _ := evaluate(t); return g })
 		c.Observe("A.minimiser_evaluations", int64(evals))
 		if mf == nil {
@@ -486,6 +493,13 @@ func checkCase(c *lib.Ctx, cs *Case, distinct bool) int {
 		c.Violation(sig, fmt.Sprintf("%s %s (build #%d on this listener): %s", mf.Kind, mf.Field, mf.Build, mf.Detail),
 			witnessA{Kind: "A", Signature: sig, Case: min, Original: cs, Finding: mf, Options: min.Opt.optionsJSON(), Outcomes: os, Expect: describeWant(expect(min))})
 		n++
+		km := minCache[sig]
+		if km == nil {
+			km = &knownMin{sig: sig, cause: cause, kind: mf.Kind, field: mf.Field, min: min}
+			minCache[sig] = km
+			minOrder = append(minOrder, sig)
+		}
+		km.full++
 		if len(cause) == 0 {
 			break
 		}
@@ -494,11 +508,70 @@ func checkCase(c *lib.Ctx, cs *Case, distinct bool) int {
 				dims[i].reset(work, base)
 			}
 		}
-		if g, _ := evaluate(work); g == nil {
-			break
-		}
+		f, _ = evaluate(work)
 	}
 	return n
+}
+
+// Defects of the tree make a sizeable share of all cases fail in the same few ways. Once a
+// signature has been established three times by full minimisation in this worker, a later
+// failing case that carries the same class of values in the responsible dimensions is
+// attributed to it if neutralising just those dimensions removes (or changes) its first
+// finding; whatever still fails afterwards is examined further. One in eight
+// such cases is minimised in full regardless.
+type knownMin struct {
+	sig         string
+	cause       []int
+	kind, field string
+	min         *Case
+	full        int
+}
+
+var (
+	minCache = map[string]*knownMin{}
+	minOrder []string
+	fastSeen int
+)
+
+func tryFast(c *lib.Ctx, work *Case, f *finding) (*knownMin, *finding, *Case) {
+	base := baseline()
+	for _, sig := range minOrder {
+		km := minCache[sig]
+		if km.full < 3 || len(km.cause) == 0 {
+			continue
+		}
+		match := true
+		for _, i := range km.cause {
+			d := &dims[i]
+			if !d.applies(work) || !d.applies(km.min) || d.atBase(work, base) {
+				match = false
+				break
+			}
+			if d.name == "repeat" {
+				if work.Repeat < km.min.Repeat {
+					match = false
+				}
+			} else if d.label(work) != d.label(km.min) {
+				match = false
+			}
+		}
+		if !match {
+			continue
+		}
+		fastSeen++
+		if fastSeen%8 == 0 {
+			return nil, nil, nil
+		}
+		t := work.clone()
+		for _, i := range km.cause {
+			dims[i].reset(t, base)
+		}
+		g, _ := evaluate(t)
+		if g == nil || g.Kind != f.Kind || g.Field != f.Field {
+			return km, g, t
+		}
+	}
+	return nil, nil, nil
 }
 
 func observeCase(c *lib.Ctx, cs *Case) {
